@@ -28,6 +28,12 @@
       `args` / `required` / `varkw` of the REGENERATED `Gen/Registry.lean`) fails, the call raises that exception class.
       `unknown_key_error_lenient` and `lenient_sections_bind_strictly` are restated under it.
 
+  Since `detect_and_return_klass` and `build_new_mixed_class` are translated themselves (`src_detect_and_return_klass`,
+  `src_build_new_mixed_class`: the regenerated functions, run against the lower-level oracle `detectExt` of
+  Proofs/C15SrcDetect.lean, return what the main oracle answers for them): `custom_class_pick` is restated as
+  `src_custom_class_pick`, and the class `mixin_split` resolves to is shown to be what the regenerated
+  `build_new_mixed_class` builds, with bases `mixins + (base,)` (`src_mixed_class_bases`).
+
   Not restated (no tie)
     * the first conjunct of `mixin_split` (`joinWith` / `splitOnC`: string functions of the model; `str.split` is a
       primitive of the dialect); the `determine_klass` conjunct is restated.
@@ -522,5 +528,64 @@ example : ∃ w : World, WorldOK w ∧ w.reg = Registry.registry ∧ w.customs =
           · simp [Except.map] at h
     obtain ⟨key, rfl⟩ := this
     rfl
+
+/-! ## the custom-file class and the mixed class, through the regenerated `detect_and_return_klass` /
+     `build_new_mixed_class` (run against the lower-level oracle `detectExt`: importlib, `inspect.getmembers`, `type()`) -/
+
+/-- **custom_class_pick**, about the regenerated `detect_and_return_klass`: for a file of the world, whatever base classes
+    it has imported and wherever `inspect.getmembers` lists them, the function returns a class of the file that derives
+    from the section's base and has the smallest name among those — or raises `Exception` exactly when the file has no
+    such class; a file the world does not have raises `Exception` too -/
+theorem src_custom_class_pick (w : World) (imp : String → Imports) (file n sec : String) :
+    (∀ members, w.customs.lookup file = some members →
+      (∀ v, SrcC15.detect_and_return_klass (detectExt w imp) (.str file) (.obj (.base n sec)) = .ok v →
+        ∃ k, v = kobj k ∧ k ∈ members ∧ k.sections.contains sec = true ∧
+          ∀ k' ∈ members, k'.sections.contains sec = true → k.name ≤ k'.name) ∧
+      ((∀ k ∈ members, k.sections.contains sec = false) →
+        SrcC15.detect_and_return_klass (detectExt w imp) (.str file) (.obj (.base n sec)) = .error .Exception) ∧
+      ((∃ k ∈ members, k.sections.contains sec = true) →
+        ∃ k, SrcC15.detect_and_return_klass (detectExt w imp) (.str file) (.obj (.base n sec)) = .ok (kobj k))) ∧
+    (w.customs.lookup file = none →
+      SrcC15.detect_and_return_klass (detectExt w imp) (.str file) (.obj (.base n sec)) = .error .Exception) := by
+  have hsrc := src_detect_and_return_klass w imp file n sec
+  have hR : w.ext.call (.fn "detect_and_return_klass") [.str file, .obj (.base n sec)] []
+      = (match w.customs.lookup file with
+         | none => .error .Exception
+         | some members => embE kobj (Factory.detectKlass members sec)) := rfl
+  rw [hR] at hsrc
+  refine ⟨fun members hl => ?_, fun hl => ?_⟩
+  · have hsrc' : SrcC15.detect_and_return_klass (detectExt w imp) (.str file) (.obj (.base n sec))
+        = embE kobj (Factory.detectKlass members sec) := by
+      rw [hsrc, hl]
+    obtain ⟨h1, h2, h3⟩ := custom_class_pick members sec
+    refine ⟨fun v hv => ?_, fun hnone => ?_, fun hex => ?_⟩
+    · rw [hsrc'] at hv
+      cases hd : Factory.detectKlass members sec with
+      | error e => rw [hd] at hv; cases hv
+      | ok k =>
+        rw [hd] at hv
+        have : kobj k = v := by
+          have hv' : (Except.ok (kobj k) : M V) = Except.ok v := hv
+          injection hv'
+        exact ⟨k, this.symm, h1 k hd⟩
+    · rw [hsrc', h2 hnone]; rfl
+    · obtain ⟨k, hk⟩ := h3 hex
+      exact ⟨k, by rw [hsrc', hk]; rfl⟩
+  · rw [hsrc, hl]
+
+/-- **mixin_split, the class that is built**, about the regenerated `build_new_mixed_class`: for a base class and a list of
+    mixins without repetition (the base not among them) the function returns the class whose bases are
+    `tuple(mixins) + (base,)` — mixins first, in the order of the `+` selector, the base class last (the MRO order in which
+    `mixed_init` and `determine_mixin_args` treat them); a repeated mixin is a `TypeError` -/
+theorem src_mixed_class_bases (w : World) (imp : String → Imports) (b : Klass) (ms : List Klass)
+    (hb : (ms.map (·.path)).contains b.path = false) :
+    (Factory.hasDup (ms.map (·.path)) = false →
+      SrcC15.build_new_mixed_class (detectExt w imp) (kobj b) (.list (ms.map kobj)) = .ok (.obj (.mixed ms b)) ∧
+      (detectExt w imp).getattr (.mixed ms b) "__bases__" = .ok (.tuple ((ms ++ [b]).map kobj))) ∧
+    (Factory.hasDup (ms.map (·.path)) = true →
+      SrcC15.build_new_mixed_class (detectExt w imp) (kobj b) (.list (ms.map kobj)) = .error .TypeError) := by
+  have h := src_build_new_mixed_class w imp b ms hb
+  rw [ext_call_build] at h
+  refine ⟨fun hd => ⟨by rw [h, hd]; rfl, rfl⟩, fun hd => by rw [h, hd]; rfl⟩
 
 end Taurex.C15SrcProps
